@@ -1,70 +1,130 @@
 (** C14 -- CSV, array-frame and Matrix forms round-trip coordinates, slices and numbers.
-    PARTIAL by design (pandas text layer not modelled) and partial in proof:
 
-    FULL STATEMENTS (kept visible; validated on every run by the correspondence check, which evaluates
-    them inside Coq on the implementation's results -- checks "THEOREM wide/long/long CSV/array/matrix"):
+    Strength: PARTIAL BY DESIGN only in the sense that the pandas layer (CSV text, dtype inference of
+    read_csv, groupby(dropna=False), PeriodIndex) is not modelled: the model starts and stops at
+    tables (lists of rows).  At the table level every clause of the property is now a theorem, for any
+    number of cells, slices and scenarios and for ANY reader description with frame_spec_ok = true
+    (the one generated from the current source satisfies it: GenProps/C14_Props.v instantiates the
+    round-trip theorems at it):
 
-      (W)  forall sp fn dn ln t, frame_spec_ok sp = true -> frame_hyps fn dn ln t = true ->
-             exists out, wide_trip sp fn dn ln t = Ok out /\ out = floatify t
-      (L)  ... long_trip sp dn ln t = Ok (floatify t)
-      (Lc) ... long_trip_csv sp dn ln t = Ok out /\ cells_perm_eqb out (floatify_merged t) = true
-             (the long CSV entry point has no loss_detail_cols: loss_details return as details)
-      (A)  regular single-slice cumulative month-aligned t with one scalar field f and period length r:
-             from_array (to_array t f) f r m  ~  floatify t
-      (M)  month-aligned semi-regular t on one period grid, nested resolutions, >= 2 evaluation dates,
-             cumulative (or incremental with consecutive columns):
-             matrix_round_trip msp t fields = Ok out /\ Permutation out (floatify t)
+      (W)   C14_wide_round_trip                 wide_trip sp fn dn ln t = Ok (floatify t)
+            C14_wide_round_trip_any_row_order   ... for every permutation of the rows of the table
+                                                (sample order restored from the scenario column)
+            C14_wide_row_count                  one row per cell and scenario
+      (L)   C14_long_round_trip                 long_trip sp dn ln t = Ok (floatify t)
+      (Lc)  C14_long_csv_round_trip             the long CSV entry point has no loss_detail_cols:
+                                                loss_details come back appended to details
+            C14_long_row_count                  one row per cell, field and scenario
+      (A)   C14_array_round_trip(_regular)      to_array / from_array inverse for single-slice triangles
+                                                given by their row structure; equality for regular /
+                                                ragged rows, permutation inside a row otherwise;
+            C14_array_inferred_resolution       the default period_resolution (after the G5 repair)
+      (M)   C14_matrix_round_trip               cumulative, complete or holey, cells with a subset of fields
+            C14_matrix_round_trip_incremental   incremental with consecutive columns (excludes G6)
+            index inverse: C14_matrix_resolve_unresolve, _unresolve_resolve, _resolve_unresolve_exp,
+            _nested_step_divides, _coords_roundtrip
+      refutations of the unrepaired readers: C14_pre_F8_key_refuted, C14_pre_F12_steps_refuted,
+            C14_matrix_mixed_steps_refuted
 
-    where frame_hyps (Model/Frame.v) lists every side condition the proofs and the real code force:
+    frame_hyps (Model/Frame.v) lists every side condition the proofs and the real code force:
     non-empty triangle; every cell has >= 1 field and is all-scalar or all-sample with one common
     length >= 2 (cumulative) / all-scalar (incremental); risk_basis is not None (G3); detail values
-    are strings or numbers (numbers come back as floats); field, detail and loss-detail names are
-    pairwise distinct and distinct from the reserved column names; no two cells share coordinates
-    and metadata; each cell lists its names in the order of the enumerations fn / dn / ln.
+    are strings or numbers (0 and 0.0 included; numbers come back as floats); field, detail and
+    loss-detail names are pairwise distinct and distinct from the reserved column names; no two cells
+    share coordinates and metadata; each cell lists its names in the order of the enumerations
+    fn / dn / ln (the code enumerates Python sets, so the order is a parameter of the model).
+    Matrix: month ids 0..1571 (1970-2100), one period grid with period length = exp_res (G1), nested
+    resolutions (G2), >= 2 evaluation dates, metadata numbers already floats.
     CSV-level side conditions outside the table model: no string equal to a pandas NA token (G4),
     no string that parses as a number.
 
-    PROVED below (for any number of cells, slices, scenarios): the key lemma (grouping keys separate
-    any two rows that differ in ANY coordinate / metadata attribute / detail -- what F8 broke), hence
-    every slice stays separate and the groups are exactly the cells (wide) / (cell, field) pairs
-    (long); sample order is restored from the scenario column whatever the row order; a dict listed
-    in enumeration order is rebuilt exactly; Matrix index inverse (see the MatrixIx theorems).
-    The Metadata of a row is rebuilt as fl_meta m (NaN -> default), the values of a scalar cell are
-    rebuilt as floats.  (M) is proved for cumulative scalar triangles whose cells carry every field;
-    the reader half of (A) is proved.
-    MISSING for (W)/(L): the writer lemma (to_*_rows produces one such block per cell, with these
-    columns) and the assembly of the per-block lemmas into the end-to-end equation; for samples the
-    per-block value reconstruction.  MISSING for (A): the writer half (to_array).  MISSING for (M):
-    incremental triangles, cells with a subset of the fields.  All of these are checked by evaluation
-    of the full statements inside Coq on every correspondence case. *)
+    STILL NOT THEOREMS (evaluated per case by the correspondence check only): the pandas layer; the
+    error paths of to_array (several slices / incremental input) and frames with further fields;
+    one-element sample arrays and fields outside `fields` in the Matrix (both are not equalities of
+    the implementation either); the rich-matrix inverse (only its step is tied, by matrix_spec_ok).
+    The lemmas further down (grouping keys separate, groups are cells, sample order, dict / metadata /
+    value reconstruction) are the building blocks of (W) and (L). *)
 From Coq Require Import ZArith List Bool Sorting.Permutation Sorting.Sorted.
 From Bermuda Require Import Model.Base Lib.Calendar Model.Frame Model.MatrixIx
      Proofs.FrameLib Proofs.FrameKey Proofs.FrameGroups Proofs.FrameSort Proofs.FrameMeta Proofs.FrameValues
-     Proofs.MatrixIxP Proofs.FrameExample.
+     Proofs.FrameRow Proofs.FrameWide4 Proofs.FrameWide5 Proofs.FrameLong Proofs.FrameLongCount Proofs.MatrixIxP Proofs.MatrixIxP2 Proofs.MatrixIxArr
+     Proofs.FrameExample.
 Import ListNotations.
 Local Open Scope Z_scope.
 
+(** (W) THE WIDE FORM END TO END, for every description with frame_spec_ok (in particular the one
+    generated from the current source): all-scalar / all-sample cumulative triangles and scalar
+    incremental triangles, any number of cells, slices and scenarios; every slice stays separate
+    whatever attribute or detail distinguishes it; every number comes back as a float; sample arrays
+    in scenario order.  [nrows c] = number of scenarios of the cell. *)
+Theorem C14_wide_round_trip :
+  forall sp fn dn ln t, frame_spec_ok sp = true -> frame_hyps fn dn ln t = true ->
+  wide_trip sp fn dn ln t = Ok (floatify t).
+Proof. exact wide_round_trip. Qed.
+Print Assumptions C14_wide_round_trip.
+
+(** (W, any row order) the wide reader does not depend on the order of the rows of the file: for every
+    permutation of the written table it returns a permutation of floatify t (Triangle(...) sorts);
+    sample arrays are restored from the scenario column *)
+Theorem C14_wide_round_trip_any_row_order :
+  forall sp fn dn ln t, frame_spec_ok sp = true -> frame_hyps fn dn ln t = true ->
+  forall T T', to_wide_rows fn dn ln t = Ok T -> Permutation T T' ->
+  exists out, from_wide_rows sp fn ln T' = Ok out /\ Permutation out (floatify t).
+Proof. exact wide_round_trip_shuffled. Qed.
+Print Assumptions C14_wide_round_trip_any_row_order.
+
+(** (L) THE LONG FORM END TO END (reader given the loss-detail columns: the data-frame entry point) *)
+Theorem C14_long_round_trip :
+  forall sp fn dn ln t, frame_spec_ok sp = true -> frame_hyps fn dn ln t = true ->
+  long_trip sp dn ln t = Ok (floatify t).
+Proof. exact long_round_trip. Qed.
+Print Assumptions C14_long_round_trip.
+
+(** (Lc) the long CSV entry point has no loss_detail_cols argument: loss_details come back appended to
+    details (floatify_merged); the slices still stay separate because detail names and loss-detail
+    names are disjoint *)
+Theorem C14_long_csv_round_trip :
+  forall sp fn dn ln t, frame_spec_ok sp = true -> frame_hyps fn dn ln t = true ->
+  long_trip_csv sp dn ln t = Ok (floatify_merged t).
+Proof. exact long_round_trip_csv. Qed.
+Print Assumptions C14_long_csv_round_trip.
+
+(** one row per cell, field and scenario *)
+Theorem C14_long_row_count :
+  forall fn dn ln t, frame_hyps fn dn ln t = true ->
+  exists T, to_long_rows dn ln t = Ok T
+            /\ length T = list_sum (map (fun c => (nrows c * length (cvals c))%nat) t).
+Proof. exact long_row_count. Qed.
+Print Assumptions C14_long_row_count.
+
+(** one row per cell and scenario *)
+Theorem C14_wide_row_count :
+  forall fn dn ln t, frame_hyps fn dn ln t = true ->
+  exists T, to_wide_rows fn dn ln t = Ok T /\ length T = list_sum (map nrows t).
+Proof. exact wide_row_count. Qed.
+Print Assumptions C14_wide_row_count.
+
 (** key lemma: equal grouping keys force equal coordinates, metadata columns and detail columns *)
-Theorem C14_grouping_key_separates_partial :
+Theorem C14_grouping_key_separates :
   forall sp cols dcols lcols (r1 r2 : row),
   frame_spec_ok sp = true -> keys r1 = cols -> keys r2 = cols ->
   row_key (key_cols (fs_wide_key sp) cols dcols lcols) r1
   = row_key (key_cols (fs_wide_key sp) cols dcols lcols) r2 ->
   forall c, In c (coord_cols ++ meta_col_names ++ dcols) -> get c r1 = get c r2.
 Proof. exact wide_key_separates. Qed.
-Print Assumptions C14_grouping_key_separates_partial.
+Print Assumptions C14_grouping_key_separates.
 
-Theorem C14_long_grouping_key_separates_partial :
+Theorem C14_long_grouping_key_separates :
   forall sp cols dcols lcols (r1 r2 : row),
   frame_spec_ok sp = true -> keys r1 = cols -> keys r2 = cols ->
   row_key (key_cols (fs_long_key sp) cols dcols lcols) r1
   = row_key (key_cols (fs_long_key sp) cols dcols lcols) r2 ->
   forall c, In c ([c_ps; c_pe; c_ev; c_field] ++ meta_col_names ++ dcols ++ lcols) -> get c r1 = get c r2.
 Proof. exact long_key_separates. Qed.
-Print Assumptions C14_long_grouping_key_separates_partial.
+Print Assumptions C14_long_grouping_key_separates.
 
 (** ... hence equal keys give the same reconstructed Metadata and the same coordinates *)
-Theorem C14_same_key_same_slice_partial :
+Theorem C14_same_key_same_slice :
   forall sp cols dcols lcols (r1 r2 : row),
   frame_spec_ok sp = true -> keys r1 = cols -> keys r2 = cols -> incl lcols dcols ->
   row_key (key_cols (fs_wide_key sp) cols dcols lcols) r1
@@ -72,10 +132,10 @@ Theorem C14_same_key_same_slice_partial :
   meta_of_row (filter (not_in lcols) dcols) lcols r1 = meta_of_row (filter (not_in lcols) dcols) lcols r2
   /\ get c_ps r1 = get c_ps r2 /\ get c_pe r1 = get c_pe r2 /\ get c_ev r1 = get c_ev r2.
 Proof. exact wide_key_same_meta. Qed.
-Print Assumptions C14_same_key_same_slice_partial.
+Print Assumptions C14_same_key_same_slice.
 
 (** every slice stays separate: one block of rows per cell (wide) in, exactly those blocks out *)
-Theorem C14_wide_groups_are_cells_partial :
+Theorem C14_wide_groups_are_cells :
   forall sp cols dcols lcols (blocks : list (list row)),
   frame_spec_ok sp = true -> incl lcols dcols ->
   (forall b, In b blocks -> b <> []) ->
@@ -87,9 +147,9 @@ Theorem C14_wide_groups_are_cells_partial :
                /\ get c (rep (nth i blocks [])) <> get c (rep (nth j blocks []))) ->
   map snd (group_by key_eqb (row_key (key_cols (fs_wide_key sp) cols dcols lcols)) (concat blocks)) = blocks.
 Proof. exact wide_groups_are_blocks. Qed.
-Print Assumptions C14_wide_groups_are_cells_partial.
+Print Assumptions C14_wide_groups_are_cells.
 
-Theorem C14_long_groups_are_cell_fields_partial :
+Theorem C14_long_groups_are_cell_fields :
   forall sp cols dcols lcols (blocks : list (list row)),
   frame_spec_ok sp = true ->
   (forall b, In b blocks -> b <> []) ->
@@ -101,22 +161,22 @@ Theorem C14_long_groups_are_cell_fields_partial :
                /\ get c (rep (nth i blocks [])) <> get c (rep (nth j blocks []))) ->
   map snd (group_by key_eqb (row_key (key_cols (fs_long_key sp) cols dcols lcols)) (concat blocks)) = blocks.
 Proof. exact long_groups_are_blocks. Qed.
-Print Assumptions C14_long_groups_are_cell_fields_partial.
+Print Assumptions C14_long_groups_are_cell_fields.
 
 (** sample arrays keep their order through the scenario column, whatever order the rows arrive in *)
-Theorem C14_sample_order_restored_partial :
+Theorem C14_sample_order_restored :
   forall l l', Permutation l l' -> NoDup (map scen l) -> StronglySorted scen_le l -> sort_scen l' = l.
 Proof. exact sort_scen_restores. Qed.
-Print Assumptions C14_sample_order_restored_partial.
+Print Assumptions C14_sample_order_restored.
 
 (** a details / values dict listed in enumeration order is rebuilt exactly from its columns *)
-Theorem C14_dict_rebuilt_partial :
+Theorem C14_dict_rebuilt :
   forall (V W : Type) (g : V -> W) (U : list str), NoDup U -> forall d : list (str * V),
   keys d = filter (fun k => mem k (keys d)) U ->
   flat_map (fun c => match assoc c d with Some v => [(c, g v)] | None => [] end) U
   = map (fun kv => (fst kv, g (snd kv))) d.
 Proof. exact @rebuild_dict. Qed.
-Print Assumptions C14_dict_rebuilt_partial.
+Print Assumptions C14_dict_rebuilt.
 
 (** the hypotheses are satisfiable and the full statements hold on a non-trivial input: two slices
     that differ ONLY in country, non-monotone samples, mixed field coverage, int and float arrays *)
@@ -147,7 +207,7 @@ Print Assumptions C14_pre_F12_steps_refuted.
 
 (* ---------------------------------------------------------------------------------- *)
 (** NaN -> default and Metadata reconstruction: a row carrying the flat dict of m is read back as fl_meta m *)
-Theorem C14_metadata_rebuilt_partial (m : meta) (r : row) (dn ln : list str) :
+Theorem C14_metadata_rebuilt (m : meta) (r : row) (dn ln : list str) :
   meta_ok m = true -> NoDup dn -> NoDup ln ->
   ordered_in dn (keys (details m)) = true -> ordered_in ln (keys (loss_details m)) = true ->
   (forall n, In n meta_col_names -> get n r = get n (attr_dict m)) ->
@@ -155,16 +215,16 @@ Theorem C14_metadata_rebuilt_partial (m : meta) (r : row) (dn ln : list str) :
   (forall n, In n ln -> get n r = get n (tdict (loss_details m))) ->
   meta_of_row dn ln r = fl_meta m.
 Proof. exact (meta_rebuilt m r dn ln). Qed.
-Print Assumptions C14_metadata_rebuilt_partial.
+Print Assumptions C14_metadata_rebuilt.
 
 (** the values of a scalar cell are rebuilt as floats from its single row *)
-Theorem C14_scalar_values_rebuilt_partial (fn : list str) (vals : list (str * value)) (r : row) :
+Theorem C14_scalar_values_rebuilt (fn : list str) (vals : list (str * value)) (r : row) :
   NoDup fn -> ordered_in fn (keys vals) = true ->
   forallb (fun kv => is_scalar (snd kv)) vals = true ->
   (forall f, In f fn -> get f r = field_entry (assoc f vals) 0) ->
   values_of [r] fn = Ok (map (fun kv => (fst kv, fl_value (snd kv))) vals).
 Proof. exact (scalar_values_rebuilt fn vals r). Qed.
-Print Assumptions C14_scalar_values_rebuilt_partial.
+Print Assumptions C14_scalar_values_rebuilt.
 
 (** MatrixIndex: resolve (unresolve i) = i on the development axis, for any common step *)
 Theorem C14_matrix_resolve_unresolve : forall k ix n, 0 < step_of k ix -> 0 <= n ->
@@ -218,24 +278,62 @@ Theorem C14_matrix_mixed_steps_refuted : exists ix lag,
 Proof. exact mixed_steps_refuted. Qed.
 Print Assumptions C14_matrix_mixed_steps_refuted.
 
-(** (M) for cumulative scalar triangles in which every cell carries every field (holey or complete, any number of slices): matrix_to_triangle (triangle_to_matrix t) is a permutation of floatify t.  Missing: incremental triangles, cells with a subset of the fields *)
-Theorem C14_matrix_round_trip_partial : forall msp t fields ix,
+
+
+(* ---------------------------------------------------------------------------------- *)
+(** (M) THE MATRIX FORM, cumulative: month-aligned (ids 0..1571 = 1970-2100) semi-regular triangle on one period grid (every period exactly exp_res long), nested resolutions, any number of slices, complete or holey, every cell carrying a non-empty subset of the fields (scalar numbers; metadata numbers already floats): matrix_to_triangle (triangle_to_matrix t) is a permutation of floatify t (Triangle(...) sorts) *)
+Theorem C14_matrix_round_trip : forall msp t fields ix,
   ms_resolve_step msp = SMin -> ms_inverse_step msp = SMin ->
   semi_regular t = true ->
   index_from_triangle t fields = Ok ix ->
   ((dev_res ix | exp_res ix) \/ (exp_res ix | dev_res ix)) ->
   NoDup fields ->
-  (forall c, In c t -> grid_cell (exp_res ix) fields c) ->
+  (forall c, In c t -> grid_cell_sub (exp_res ix) fields c) ->
   NoDup t ->
   (forall c c', In c t -> In c' t -> cmeta c = cmeta c' -> ps c = ps c' -> ev c = ev c' -> c = c') ->
   exists out, matrix_round_trip msp t fields = Ok out /\ Permutation out (floatify t).
-Proof. exact matrix_round_trip_nested. Qed.
-Print Assumptions C14_matrix_round_trip_partial.
+Proof. exact (matrix_round_trip_nested_sub). Qed.
+Print Assumptions C14_matrix_round_trip.
 
-(** (A), reader half: from_array rebuilds, row by row, the cells of the frame (period end = start + r months - 1 day, evaluation = period end + lag months).  Missing: the writer half (to_array groups the cells into these rows) *)
-Theorem C14_array_frame_reader_partial : forall f m res lags (rows : list (Z * list (option Z))),
-  Forall (fun r => arow_ok res lags (fst r)) rows ->
-  from_array (mkAF lags (map (fun r => (month_start (fst r), snd r)) rows)) f res m
-  = aframe_cells f m res lags rows.
-Proof. exact from_array_rows. Qed.
-Print Assumptions C14_array_frame_reader_partial.
+(** (M) incremental triangles whose prev_evaluation_date is the previous matrix column (period_start - 1 day in the first column): exactly the hypothesis that excludes finding G6 *)
+Theorem C14_matrix_round_trip_incremental : forall msp t fields ix,
+  ms_resolve_step msp = SMin -> ms_inverse_step msp = SMin ->
+  semi_regular t = true ->
+  index_from_triangle t fields = Ok ix ->
+  ((dev_res ix | exp_res ix) \/ (exp_res ix | dev_res ix)) ->
+  NoDup fields ->
+  (forall c, In c t -> grid_cell_inc ix fields c) ->
+  NoDup t ->
+  (forall c c', In c t -> In c' t -> cmeta c = cmeta c' -> ps c = ps c' -> ev c = ev c' -> c = c') ->
+  exists out, matrix_round_trip msp t fields = Ok out /\ Permutation out (floatify t).
+Proof. exact (matrix_round_trip_incremental). Qed.
+Print Assumptions C14_matrix_round_trip_incremental.
+
+(** (A) THE ARRAY DATA FRAME: every single-slice cumulative month-aligned triangle with equal period lengths and one scalar field is cells_of_rows of its row structure (period start id, (lag, value) list); to_array then from_array returns its cells (metadata m as passed, numbers as floats) up to the order inside a period row *)
+Theorem C14_array_round_trip : forall f m res rows, 0 < res -> rows_ok res rows ->
+  exists af out,
+    to_array (cells_of_rows f m res rows) f = Ok af /\ from_array af f res m = out /\
+    Permutation out (map (arr_norm m) (cells_of_rows f m res rows)).
+Proof. exact (array_round_trip). Qed.
+Print Assumptions C14_array_round_trip.
+
+(** (A) regular / ragged triangles (every row lists a prefix of one common lag list): equality, cells in order *)
+Theorem C14_array_round_trip_regular : forall f m res rows L, 0 < res -> rows_ok res rows -> NoDup L ->
+  (forall r, In r rows -> is_prefix (map fst (snd r)) L) ->
+  exists af, to_array (cells_of_rows f m res rows) f = Ok af /\
+             from_array af f res m = map (arr_norm m) (cells_of_rows f m res rows).
+Proof. exact (array_round_trip_prefix). Qed.
+Print Assumptions C14_array_round_trip_regular.
+
+(** the right-hand side above is floatify of the cells when the metadata numbers are floats *)
+Theorem C14_array_result_is_floatify f m res rows : fl_meta m = m ->
+  map (arr_norm m) (cells_of_rows f m res rows) = floatify (cells_of_rows f m res rows).
+Proof. exact (arr_norm_fl_cell f m res rows). Qed.
+Print Assumptions C14_array_result_is_floatify.
+
+(** period_resolution=None (after the G5 repair): the inferred resolution is the distance of the first two period starts *)
+Theorem C14_array_inferred_resolution : forall res r0 r1 rows,
+  0 <= fst r0 <= 1571 -> 0 <= fst r1 <= 1571 -> fst r1 - fst r0 = res ->
+  infer_resolution (array_of_rows (r0 :: r1 :: rows)) = Ok res.
+Proof. exact (infer_resolution_rows). Qed.
+Print Assumptions C14_array_inferred_resolution.
